@@ -193,10 +193,10 @@ type StepObs struct {
 	ChusStore   []JEntry `json:"chus_store,omitempty"`
 	KeeperClass int      `json:"keeper_class"`
 	// verify
-	VClass   int  `json:"v_class"`
-	Decodes  bool `json:"decodes"`
-	Member   bool `json:"member"`
-	ProofNil bool `json:"proof_nil"`
+	VClass   int    `json:"v_class"`
+	Decodes  bool   `json:"decodes"`
+	Member   bool   `json:"member"`
+	ProofNil bool   `json:"proof_nil"`
 	ProofHex string `json:"proof_hex,omitempty"`
 	// both: the client store after the step (after a rejected keeper update: the store the failed call left behind)
 	Store []JEntry `json:"store"`
@@ -205,10 +205,10 @@ type StepObs struct {
 }
 
 type Result struct {
-	Spec        Spec     `json:"spec"`
-	ClientValid int      `json:"client_valid"` // result class of ClientState.Validate on the initial client state
-	InitStore   []JEntry `json:"init_store"`
-	Obs       []StepObs `json:"obs"`
+	Spec        Spec      `json:"spec"`
+	ClientValid int       `json:"client_valid"` // result class of ClientState.Validate on the initial client state
+	InitStore   []JEntry  `json:"init_store"`
+	Obs         []StepObs `json:"obs"`
 }
 
 // ---------------------------------------------------------------------------
@@ -490,7 +490,9 @@ func (e *env) start(spec Spec) *run {
 	return r
 }
 
-func (r *run) store() sdk.KVStore { return r.e.app.XIBCKeeper.ClientKeeper.ClientStore(r.ctx, clientName) }
+func (r *run) store() sdk.KVStore {
+	return r.e.app.XIBCKeeper.ClientKeeper.ClientStore(r.ctx, clientName)
+}
 
 func (r *run) clientState() *tmclient.ClientState {
 	csI, ok := r.e.app.XIBCKeeper.ClientKeeper.GetClientState(r.ctx, clientName)
